@@ -2353,19 +2353,19 @@ private:
                     for (auto i = 0u; i < sl.n; ++i)
                     {
                         size32_t new_sit_idx = make_situation_idx(situation_info{ size16_t(sl.start + i), 0, t });
-                        if (add_situation(state_idx, new_sit_idx, false))
-                            closures[sit_idx].push_back(new_sit_idx);
+                        add_situation(state_idx, new_sit_idx, false);
+                        closures[sit_idx].push_back(new_sit_idx);
                     }
                 }
             }
 
-            if (after_empty)
+            if (after_empty && !first.test(info.t))
             {
                 for (auto i = 0u; i < sl.n; ++i)
                 {
                     size32_t new_sit_idx = make_situation_idx(situation_info{ size16_t(sl.start + i), 0, info.t });
-                    if (add_situation(state_idx, new_sit_idx, false))
-                        closures[sit_idx].push_back(new_sit_idx);
+                    add_situation(state_idx, new_sit_idx, false);
+                    closures[sit_idx].push_back(new_sit_idx);
                 }
             }
         }
